@@ -13,7 +13,7 @@ OUT_PROOF = """proof {
 UNIT = Unit(
     name="applychk", lemma_obs=['lemma_tx_conserves'], uses="group_core_axioms",
     prelude=["core.rs", "raw.rs", "iter.rs", "crypto.rs", "state_abs.rs", "melvm_abs.rs", "txmethods.rs"],
-    lemmas=["sums.rs", "iterlem.rs", "coinsview.rs", "header.rs", "seal_opaque.rs", "tips.rs", "apply.rs", "apply_c04.rs"],
+    lemmas=["sums.rs", "iterlem.rs", "coinsview.rs", "header.rs", "txroot_opaque.rs", "seal_opaque.rs", "tips.rs", "apply.rs", "apply_c04.rs"],
     items=[
         TypeItem(S, "struct", "UnsealedState"),
         TypeItem(S, "enum", "StateError", derive="#[derive(Clone, Copy, PartialEq, Eq, Structural)]"),
